@@ -547,6 +547,11 @@ class Func:
             a, b = self._env_operand(envd, rv['a']), self._env_operand(envd, rv['b'])
             if a is not None and b is not None:
                 return int(self._CMP[rv['op']](a, b))
+        if k == 'bin' and rv.get('op') in ('BitOr', 'BitAnd', 'BitXor'):
+            # `errno == libc::EINTR | libc::ECANCELED` is a comparison with one known value
+            a, b = self._env_operand(envd, rv['a']), self._env_operand(envd, rv['b'])
+            if isinstance(a, int) and isinstance(b, int) and not isinstance(a, bool) and not isinstance(b, bool) and a >= 0 and b >= 0:
+                return {'BitOr': a | b, 'BitAnd': a & b, 'BitXor': a ^ b}[rv['op']]
         if k == 'un' and rv.get('op') == 'Not' and (rv.get('ty') == 'bool' or rv['a'].get('ty') == 'bool'):
             a = self._env_operand(envd, rv['a'])
             if a is not None:
@@ -1219,6 +1224,17 @@ class ExprBuilder:
                 tb = self.const_table(op)
                 if tb is not None:
                     return tb
+            if op.get('promoted'):
+                # a promoted `&TABLE` (`TABLE.iter()` on a named table constant): a reference to the table's aggregate
+                m = re.search(r'promoted\[(\d+)\]$', op.get('text') or '')
+                proms = self.f.j.get('promoted') or []
+                if m and int(m.group(1)) < len(proms):
+                    body = [st for st in proms[int(m.group(1))] if st.get('k') == 'assign']
+                    if len(body) == 2 and body[0]['rv']['k'] == 'use' and body[0]['rv']['op'].get('k') == 'const' and body[0]['rv']['op'].get('def_path') \
+                            and body[1]['rv']['k'] == 'ref' and body[1]['lhs']['l'] == 0 and body[1]['rv']['place']['l'] == body[0]['lhs']['l'] and not body[1]['rv']['place']['p']:
+                        tb = self.const_table(body[0]['rv']['op'])
+                        if tb is not None:
+                            return E('ref', tb)
             rb = op.get('ref_bytes')
             ri = op.get('ref_inner')
             if ri is not None:
@@ -1941,12 +1957,24 @@ def table_rows(e):
     it = e[1][2][0]
     while it[0] == 'ref':
         it = it[1]
-    if not (it[0] == 'call' and it[1] == 'std::iter::IntoIterator::into_iter' and it[2] and it[2][0][0] == 'agg' and it[2][0][1] == 'array'):
+    rows = None
+    if it[0] == 'call' and it[1] == 'std::iter::IntoIterator::into_iter' and it[2] and it[2][0][0] == 'agg' and it[2][0][1] == 'array':
+        rows = it[2][0][3]
+    elif it[0] == 'call' and it[1] == 'core::slice::<impl [T]>::iter' and it[2]:
+        # `TABLE.iter()`: the items are references to the rows
+        a = it[2][0]
+        while a[0] in ('cast', 'ref'):
+            a = a[4] if a[0] == 'cast' else a[1]
+        if a[0] == 'agg' and a[1] == 'array':
+            rows = a[3]
+    if rows is None:
         return None
     out = []
-    for row in it[2][0][3]:
+    for row in rows:
         x = row
         for p_ in e[2][2:]:
+            if p_ == '*':
+                continue
             if x[0] == 'agg' and x[1] == 'tuple' and re.match(r'^\.\d+$', p_) and int(p_[1:]) < len(x[3]):
                 x = x[3][int(p_[1:])]
             else:
